@@ -10,17 +10,17 @@ import (
 )
 
 type goroutine struct {
-	points  int
+	points    int
 	lastPoint string
-	id      int
-	stack   []*frame
-	resume  chan bool
-	done    bool
-	daemon  bool
-	waiting func() bool
-	what    string
-	started bool
-	visible bool // did something another goroutine could observe since its last scheduling point
+	id        int
+	stack     []*frame
+	resume    chan bool
+	done      bool
+	daemon    bool
+	waiting   func() bool
+	what      string
+	started   bool
+	visible   bool // did something another goroutine could observe since its last scheduling point
 }
 
 type sudog struct {
@@ -565,7 +565,6 @@ func (m *Machine) selectOp(fr *frame, in *ssa.Select) Value {
 		sel.fired = &sudog{}
 	}
 }
-
 
 // ---- time ----
 
